@@ -800,6 +800,20 @@ class Sim(object):
             self.count("probe.big_n")
         self.n_span = max(self.n_span, abs(int(n)))
 
+    def select_mode(self, mode, salt):
+        """Select the calendar, a third of the time under another case of
+        its name ('Gregorian', '360DAY': set_mode looks names up
+        case-insensitively); an implementation that refuses such a spelling
+        is given the plain one."""
+        from metomi.isodatetime import data
+        spelled = [mode, mode, mode.capitalize(), mode.upper()][salt % 4]
+        try:
+            data.Calendar.default().set_mode(spelled)
+            if spelled != mode:
+                self.count("probe.mode_name_other_case")
+        except Exception:
+            data.Calendar.default().set_mode(mode)
+
     # ---- main loop
     def run(self):
         from metomi.isodatetime import data, parsers
@@ -812,7 +826,7 @@ class Sim(object):
         world.set_env(world.ENV_CAL, None)
         world.set_env(world.ENV_REF, None)
         with kernel.guarded():
-            data.Calendar.default().set_mode(self.mode)
+            self.select_mode(self.mode, trace.get("index", 0))
         self.shared = {"explicit_parser": parsers.TimePointParser(
             assumed_time_zone=(0, 0))}
         if model.BASE[self.mode] != "gregorian":
@@ -828,7 +842,7 @@ class Sim(object):
             want_mode = step.get("mode", trace["mode"])
             if want_mode != self.mode:
                 with kernel.guarded():
-                    data.Calendar.default().set_mode(want_mode)
+                    self.select_mode(want_mode, step_no)
                 self.mode = want_mode
                 self.count("fault.calendar_switch")
                 self.sig.append("p:mode")
